@@ -913,3 +913,119 @@ Proof.
     split; [now left|]. split; [assumption|]. split; [assumption|]. split; [|assumption].
     unfold signed_val. cbn [str_eqb]. lia.
 Qed.
+
+(* ================================================================ XML character data *)
+Lemma lt32_cases c : c < 32 -> In c [0;1;2;3;4;5;6;7;8;9;10;11;12;13;14;15;16;17;18;19;20;21;22;23;24;25;26;27;28;29;30;31].
+Proof.
+  intros H. rewrite <- (N2Nat.id c). change [0;1;2;3;4;5;6;7;8;9;10;11;12;13;14;15;16;17;18;19;20;21;22;23;24;25;26;27;28;29;30;31]
+    with (map N.of_nat (seq 0 32)). apply in_map. apply in_seq. lia.
+Qed.
+
+(* every character written by EncodeString is read back as that character, whatever follows it:
+   the five named entities, "&#x%02X;" for every control character, and ordinary characters *)
+Lemma xml_char_roundtrip utf8 cw kq c rest :
+  get_char utf8 (enc1 cw kq c ++ rest) = Some ([c], rest).
+Proof.
+  destruct (N.ltb_spec c 32) as [L|G].
+  - apply lt32_cases in L. cbn [In] in L.
+    repeat (destruct L as [<-|L]; [destruct cw, kq, utf8; reflexivity|]). destruct L.
+  - unfold enc1. assert (E32 : (c <? 32) = false) by (apply N.ltb_ge; assumption). rewrite E32. cbn [andb].
+    destruct (N.eqb_spec c 38) as [->|N1]; [destruct utf8; reflexivity|].
+    destruct (N.eqb_spec c 60) as [->|N2]; [destruct utf8; reflexivity|].
+    destruct (N.eqb_spec c 62) as [->|N3]; [destruct utf8; reflexivity|].
+    destruct (N.eqb_spec c 34) as [->|N4]; [destruct kq, utf8; reflexivity|].
+    destruct (N.eqb_spec c 39) as [->|N5]; [destruct kq, utf8; reflexivity|].
+    cbn [andb app get_char]. unfold c_amp. apply N.eqb_neq in N1. now rewrite N1.
+Qed.
+
+(* the numeric references: the writer's upper-case form for every control character *)
+Lemma xml_control_reference_roundtrip utf8 kq c rest : 1 <= c < 32 ->
+  enc1 true kq c = [38; 35; 120; hex_upper (c / 16); hex_upper (c mod 16); 59] /\
+  get_entity utf8 ([35; 120; hex_upper (c / 16); hex_upper (c mod 16); 59] ++ rest) = Some ([c], rest).
+Proof.
+  intros [L1 L2]. apply lt32_cases in L2. cbn [In] in L2.
+  destruct L2 as [<-|L2]; [lia|].
+  repeat (destruct L2 as [<-|L2]; [destruct kq, utf8; split; reflexivity|]). destruct L2.
+Qed.
+
+(* hexadecimal digits are read the same in both letter cases *)
+Lemma xml_hex_digit_case c : 65 <= c <= 70 -> hex_digit c = Some (c - 55) /\ hex_digit (c + 32) = Some (c - 55).
+Proof.
+  intros H. assert (In c [65;66;67;68;69;70]).
+  { rewrite <- (N2Nat.id c). change [65;66;67;68;69;70] with (map N.of_nat (seq 65 6)). apply in_map, in_seq. lia. }
+  cbn [In] in H0. repeat (destruct H0 as [<-|H0]; [split; reflexivity|]). destruct H0.
+Qed.
+
+(* no "&#x" inside the string: EncodeString's pass-through of existing references is not triggered *)
+Fixpoint no_ref (s : str) : bool :=
+  match s with
+  | [] => true
+  | c :: t => match t with
+              | d1 :: d2 :: _ => negb ((c =? c_amp) && (d1 =? c_hash) && (d2 =? c_x))
+              | _ => true
+              end && no_ref t
+  end.
+
+Lemma xml_enc_step cw kq c t : no_ref (c :: t) = true ->
+  xml_enc cw kq false (c :: t) = enc1 cw kq c ++ xml_enc cw kq false t.
+Proof.
+  intros H. cbn [no_ref] in H. apply andb_true_iff in H. destruct H as [H _].
+  destruct t as [|d1 [|d2 t']]; cbn [xml_enc]; try reflexivity.
+  apply negb_true_iff in H. now rewrite H.
+Qed.
+
+Lemma enc1_nonempty cw kq c : enc1 cw kq c <> [].
+Proof.
+  unfold enc1. repeat match goal with |- context [if ?b then _ else _] => destruct b end; discriminate.
+Qed.
+
+Lemma xml_read_keep_encoded utf8 cw kq s : no_ref s = true ->
+  forall fuel, (length (xml_enc cw kq false s) <= fuel)%nat ->
+  read_keep utf8 fuel (xml_enc cw kq false s) = Some s.
+Proof.
+  induction s as [|c t IH]; intros NR fuel Hf.
+  - destruct fuel; reflexivity.
+  - rewrite xml_enc_step in * by assumption.
+    assert (NRt : no_ref t = true) by (cbn [no_ref] in NR; apply andb_true_iff in NR; tauto).
+    pose proof (enc1_nonempty cw kq c) as NE.
+    destruct (enc1 cw kq c ++ xml_enc cw kq false t) as [|x y] eqn:E.
+    { destruct (enc1 cw kq c); [congruence | discriminate]. }
+    destruct fuel as [|k]; [cbn [length] in Hf; lia|].
+    cbn [read_keep]. rewrite <- E. rewrite xml_char_roundtrip.
+    rewrite (IH NRt k).
+    + reflexivity.
+    + rewrite <- E in Hf. rewrite app_length in Hf. destruct (enc1 cw kq c); [congruence|]. cbn [length] in Hf. lia.
+Qed.
+
+(* attribute values written by the library are read back unchanged (any bytes, any white space) *)
+Lemma xml_attribute_roundtrip utf8 cw s : no_ref s = true ->
+  xml_read_attr utf8 (xml_encode cw false s) = Some s.
+Proof. intros H. unfold xml_read_attr, xml_encode. apply xml_read_keep_encoded; [assumption | lia]. Qed.
+
+(* element text, white space kept (condensing switched off): read back unchanged unless it is all white space *)
+Lemma xml_text_roundtrip_keep utf8 s : no_ref s = true -> all_space s = false ->
+  xml_read_text false utf8 (xml_encode false true s) = Some s.
+Proof.
+  intros H B. unfold xml_read_text, xml_encode. rewrite xml_read_keep_encoded by (assumption || lia). now rewrite B.
+Qed.
+
+(* REFUTED for arbitrary strings: text that already looks like a hexadecimal reference is written unescaped
+   and comes back decoded ("&#x41;" -> "A"), and "a&#x" produces a document that cannot be parsed *)
+Lemma xml_roundtrip_refuted :
+  xml_read_attr true (xml_encode true false [38; 35; 120; 52; 49; 59]) = Some [65] /\
+  xml_read_attr true (xml_encode true false [97; 38; 35; 120]) = None.
+Proof. split; reflexivity. Qed.
+
+(* blank element text is dropped by the reader in both modes *)
+Lemma xml_blank_text_refuted : xml_read_text true true (xml_encode true true [9]) = Some [] /\
+                               xml_read_text false true (xml_encode false true [32]) = Some [].
+Proof. split; reflexivity. Qed.
+
+(* hand-written references: lower case, upper case and decimal denote the same character; condensing does
+   not touch decoded characters; a reference above 127 becomes UTF-8 *)
+Example xml_reference_examples :
+  xml_read_attr true [38;35;120;48;97;59; 38;35;120;48;65;59; 38;35;49;48;59] = Some [10; 10; 10] /\
+  xml_read_text true true [32; 97; 32; 32; 38;35;120;48;65;59; 98; 32] = Some [97; 32; 10; 98] /\
+  xml_read_attr true [38;35;50;51;51;59] = Some [195; 169] /\
+  xml_read_attr true [38;35;120;90;59] = None.
+Proof. repeat split; reflexivity. Qed.
